@@ -10,6 +10,7 @@ import json
 import os
 from vt import core
 from vt.main import decide
+from translate import nav_tr
 
 FINDING_TAG = "attr_named_parent"
 CORPUS = os.path.join(core.VERIF, "corpus", "C05")
@@ -501,7 +502,7 @@ def run_cases(cases):
 
 
 def run(chk):
-    chk.prove([])
+    chk.prove([nav_tr.translate])
     n = 1500 if chk.thorough else 300
     cases = load_corpus()
     cases += enum_cases(6 if chk.thorough else 4)       # every ordered tree shape up to that many objects, 3 variants each
@@ -549,7 +550,8 @@ def run(chk):
                        "get_model of every object, get_parent_of_type of every object for every rule name (string and class form), 8 get_children / "
                        "get_children_of_type queries (random selector, should_follow, order, start object); non-trivial = at least 3 objects; "
                        "distinct by (grammar, model text, user classes, queries)")
-    chk.assumptions += ["Python's id() is unique per live object (model: unique integer identities, hypothesis `uniq`)",
+    chk.assumptions += ["translator nav_tr.py (ast of process_node's parent assignment and of get_children's attribute loop)",
+                        "Python's id() is unique per live object (model: unique integer identities, hypothesis `uniq`)",
                         "selectors and should_follow are pure predicates",
                         "the object graph handed to the Coq model is the runner's own dump of the loaded model (walk over cls._tx_attrs)",
                         "grammars with an attribute called `parent` are outside the model's domain (known finding, classifier attr_named_parent)"]
